@@ -1,5 +1,6 @@
 import Proofs.EvaluatorPay
 import Proofs.EvaluatorSim
+import Proofs.EvaluatorTrace
 
 /-!
 # C01 — Evaluator delivers every submitted job exactly once
@@ -228,15 +229,6 @@ theorem C01_counts (p : Params C O) {s : Ev C O} {cs : List C} (h : Trace p s cs
   simp only [numSubmitted, numGathered]
   omega
 
-theorem lookupAll_ids {s : Ev C O} (hi : Inv s) :
-    ∀ (ids : List Nat), (∀ i ∈ ids, i < s.nextId) → (lookupAll s.jobs ids).map (·.id) = ids
-  | [], _ => rfl
-  | i :: ids, hlt => by
-    obtain ⟨j, hj, _, hji⟩ := hi.find (hlt i (by simp))
-    have ih := lookupAll_ids hi ids (fun x hx => hlt x (by simp [hx]))
-    simp only [lookupAll] at ih ⊢
-    simp [List.filterMap_cons, hj, hji, ih]
-
 /-- **C01 (dumped once).**  The rows ever written by `dump_jobs_done_to_csv` together with the
 jobs still waiting in `jobs_done` are exactly the delivered jobs, each once; a dump writes nothing
 (and keeps `jobs_done`) or writes exactly the waiting jobs, in order, and empties `jobs_done`. -/
@@ -311,6 +303,23 @@ theorem C01_usable_after_close (p : Params C O) {s : Ev C O} (h : Reach p s) (fi
     · intro i hi''; rw [hclosed.2.1] at hi''; simp at hi''
   exact sim_run ops hr' hsim hops hnd
 
+/-- **C01 (verified checker).**  The executable checker that the driver runs on the trace observed
+on the REAL evaluator (calls, returned job records, exception kinds, the two counters, `jobs_done`,
+dumped row ids) decides exactly the property stated over observable traces (`TraceSpec`:
+exactly-once, payload identity, batch size, counters, nothing lost at close, only legitimate
+refusals — hence usable after close —, each delivered job dumped once). -/
+theorem C01_checker [DecidableEq C] [DecidableEq O] (p : Params C O) (t : List (TStep C O)) :
+    checkTrace p t = true ↔ TraceSpec p t :=
+  checkTraceFrom_iff p t Acc.init
+
+/-- **C01 (the model's traces satisfy the trace property).**  For every call history and every
+completion environment satisfying the asyncio contract, what an observer sees of the model's run
+satisfies `TraceSpec` — the property over traces is a consequence of the theorems above, and the
+checker accepts every behaviour the model can show. -/
+theorem C01_model_traces_ok (p : Params C O) (ops : List (Op C)) (hok : opsOk p init ops = true) :
+    TraceSpec p (traceOf p init ops) :=
+  traceOf_ok ops .init ⟨rfl, rfl, rfl⟩ hok
+
 /-! ## Non-vacuity: a concrete reachable history (HPO format, batches, a close that records one
 finished and one cancelled job, reuse after close, held-back and flushed dumps) -/
 
@@ -331,6 +340,17 @@ example : (run pEx init opsEx).2 =
      .jobs [⟨4, 11, some 111, .done⟩],
      .rows [⟨0, 7, some 107, .done⟩, ⟨3, 10, some 0, .cancelled⟩, ⟨4, 11, some 111, .done⟩]] := by
   decide +kernel
+example : checkTrace pEx (traceOf pEx init opsEx) = true := by decide +kernel
+/-- the checker rejects a trace in which job 1 is handed back a second time -/
+example : checkTrace pEx
+    [⟨.submit [7, 8], .unit, 2, 0, []⟩,
+     ⟨.gather false 1, .jobs [⟨1, 8, some 108, .done⟩], 2, 1, [⟨1, 8, some 108, .done⟩]⟩,
+     ⟨.gather false 1, .jobs [⟨1, 8, some 108, .done⟩], 2, 2,
+       [⟨1, 8, some 108, .done⟩, ⟨1, 8, some 108, .done⟩]⟩] = false := by decide +kernel
+/-- … and one in which close loses job 0 -/
+example : checkTrace pEx
+    [⟨.submit [7, 8], .unit, 2, 0, []⟩,
+     ⟨.close, .unit, 2, 1, [⟨1, 8, some 0, .cancelled⟩]⟩] = false := by decide +kernel
 /-- a sized gather with nothing in flight is the one legitimate refusal (`C01_no_spurious_error`) -/
 example : (run pEx init [.gather false 1 [] []]).2 = [.error .noLoop] := by decide +kernel
 example : (run pEx init [.submit [1], .gather true 0 [0] [[0]], .gather false 1 [] []]).2.getLast? =
